@@ -2,7 +2,7 @@
 # tools/seed_verify.sh <dir with patch.diff, demo.py> "<check ids>" [tier]
 # Confirms a seeded change independently in scratch copies outside /repo and /verif:
 #  test suite on the changed tree, demo on original and changed tree, then our checks against the changed tree.
-src=$1; checks=$2; tier=${3:-quick}
+src=$(cd "$1" && pwd); checks=$2; tier=${3:-quick}
 tmp=$(mktemp -d /tmp/sv_XXXX)
 mkdir -p $tmp/orig $tmp/chg
 git -C /repo archive HEAD | tar -x -C $tmp/orig
